@@ -215,7 +215,7 @@ print("RUNS", runs, "BAD", bad)
     nrand = 40 if chk.tier == "quick" else 2000
     try:
         p = subprocess.run(["/venv/bin/python", "-c", code, str(chk.seed), str(nrand)], capture_output=True, text=True,
-                           timeout=1500, env=dict(os.environ, PYTHONPATH="/repo"))
+                           timeout=1500, env=dict(os.environ, PYTHONPATH=os.environ.get("FLOWDYN_REPO", "/repo")))
         out = p.stdout.strip().splitlines()
         last = out[-1] if out else ""
         runs = int(last.split()[1]) if last.startswith("RUNS") else 0
